@@ -500,6 +500,14 @@ def results_are_the_callers(it, ctx, prefix):
         for r, c in zip(kept, at_return):
             if c is not None and same(c, canon(r)):
                 d0 = same(c, canon(r))
+            if callable(r):
+                # a time function that was handed out answers the same whenever, however often and in whatever order it is evaluated
+                y1 = call(r, t); y2 = call(r, t[::-1].copy()); y3 = call(r, t)
+                ctx.count('returned_functions_evaluated_repeatedly')
+                df = ['raised'] if (raised(y1) or raised(y2) or raised(y3)) else (same(canon(y1), canon(y3)) or same(canon(y1), canon(np.asarray(y2)[::-1])))
+                if df:
+                    ctx.violation(f'{prefix}/returned-function-answers-differently-when-evaluated-again/{name}', f'{name}: a time function handed out by the solution gives different values on a second evaluation of the same instants ({df})', {})
+                    break
         again = call(query, s)
         ctx.count('alias_requeries')
         d = ['raised', again.type] if raised(again) else (d0 or same(c1, canon(again)) or same(c1, canon(first)))
